@@ -285,6 +285,14 @@ func (v *VerifL2) ShouldAnnounce(ip net.IP, ifname string) int {
 	return int(v.A.shouldAnnounce(ip, ifname))
 }
 
+// VerifSetSpamCapacity replaces the queue SetBalancer feeds by one of the given capacity (to be called
+// before the announcer is used): with a small queue the hand-over between SetBalancer and the
+// consumer of the queue is exercised at every call, as it is in production whenever the queue is full.
+func (v *VerifL2) VerifSetSpamCapacity(n int) { v.A.spamCh = make(chan IPAdvertisement, n) }
+
+// SpamQueue exposes the receive side of the queue for a consumer that plays the spam loop.
+func (v *VerifL2) SpamQueue() <-chan IPAdvertisement { return v.A.spamCh }
+
 // Gratuitous runs the real gratuitous announcement for adv once (what spamLoop does per tick).
 func (v *VerifL2) Gratuitous(adv IPAdvertisement) { v.A.gratuitous(adv) }
 
